@@ -41,9 +41,12 @@ def gen_W(rng, maxops=20):
         elif r < 0.36:
             i = rng.randint(0, hi + 1)
             ops.append("set:%d:%d" % (i, rng.randint(-9, 99))); ln = ln if fixed else max(ln, i + 1)
-        elif r < 0.40:
+        elif r < 0.38:
             i = rng.randint(0, hi + 1)
             ops.append("bad:%d" % i); ln = ln if fixed else max(ln, i + 1)
+        elif r < 0.40:
+            i = rng.randint(0, hi + 1)
+            ops.append("def:%d:%d" % (i, rng.randint(500, 599))); ln = ln if fixed else max(ln, i + 1)
         elif r < 0.47:
             ops.append("del:%d" % rng.randint(0, hi))
         elif r < 0.56:
@@ -60,8 +63,12 @@ def gen_W(rng, maxops=20):
             ops.append("ra:%d" % rng.randint(0, 2))
         elif r < 0.88:
             ops.append("nop:%d" % rng.randint(0, 2))
-        elif r < 0.92:
+        elif r < 0.90:
             ops.append("sort")
+        elif r < 0.915 and not fixed:
+            ops.append("splice:%d:%d:%d" % (rng.randint(0, hi), rng.randint(0, 3), rng.randint(0, 2)))
+        elif r < 0.925:
+            ops.append(rng.choice(["reverse", "shift", "unshift:%d" % rng.randint(600, 699)])); gets += 1
         elif r < 0.95:
             ops.append("push:%d" % rng.randint(400, 499)); ln += 0 if fixed else 1
         elif r < 0.98:
@@ -131,9 +138,10 @@ def gen_shapes():
 
 
 P_TARGETS = ["sliceS", "sliceInt", "sliceIface", "sliceIfaceVal", "sliceSVal", "arrS", "arrSVal", "mapStrInt", "nilMap", "ptrNilMap",
-             "mapIntS", "zoo", "zooL", "nested", "nilFunc", "mapSimple", "zooVal", "embNil"]
+             "mapIntS", "zoo", "zooL", "nested", "nilFunc", "mapSimple", "zooVal", "embNil",
+             "timeVal", "bytes", "chanVal", "mapStrSlice", "mixed", "ptrptr"]
 P_OPS = ["get", "getf", "set", "setf", "del", "def", "push", "pop", "shift", "unshift", "splice", "sort", "sortcmp", "sortshrink", "sortgrow",
-         "reverse", "fill", "copyWithin", "len", "forin", "json", "spread", "keys", "freeze", "pe", "proto", "sym", "neg", "goappend", "goshrink", "call", "defnov", "seal", "fld"]
+         "reverse", "fill", "copyWithin", "len", "forin", "json", "spread", "keys", "freeze", "pe", "proto", "sym", "neg", "goappend", "goshrink", "call", "defnov", "seal", "fld", "deep", "tostr"]
 
 
 def gen_P(rng):
@@ -320,12 +328,12 @@ def spec_K(line):
 def gen_A(rng):
     """argument conversion through the Go-func gateway: integer parameters of every kind, arguments at the kind's
     boundaries, beyond them (wrap), non-integral / special doubles, booleans, undefined, null; missing and extra args"""
-    kinds = [rng.choice(list(KINDS)) for _ in range(rng.randint(1, 4))]
+    kinds = [rng.choice(list(KINDS) + ["bool", "float64", "bool", "float64"]) for _ in range(rng.randint(1, 4))]
     variadic = rng.random() < 0.4
     args = []
     for j in range(rng.randint(0, len(kinds) + 3)):
         k = kinds[min(j, len(kinds) - 1)]
-        lo, hi = KINDS[k]
+        lo, hi = KINDS.get(k, (-(2**31), 2**31))
         r = rng.random()
         if r < 0.35:
             v = rng.choice([lo, hi, lo - 1, hi + 1, 0, -1, 1, hi // 2, 2 * hi + 1, lo + 1, hi - 1, 255, 256, 65535, 65536, -129, 2**31, 2**32, -(2**31) - 1])
@@ -452,7 +460,52 @@ def spec_W(line, observed=None):
         o = p[0]
         if o == "get":
             h = get(int(p[1])); g = "g=%s " % ("-" if h is None else h)
-        elif o in ("set", "bad", "push"):
+        elif o == "reverse":
+            L = len(sl)
+            for lo in range(L // 2):
+                up = L - 1 - lo
+                vl, vu = sl[lo], sl[up]                       # both read first (wrappers created internally are not observable)
+                detach(lo); sl[lo] = vu
+                detach(up); sl[up] = vl
+        elif o == "shift":
+            L = len(sl)
+            if L == 0: g = "g=- "
+            else:
+                g = "g=- " if fixed else "g=%d " % get(0)
+                for i in range(1, L):
+                    v = sl[i]; detach(i - 1); sl[i - 1] = v
+                detach(L - 1); sl[L - 1] = 0
+                if not fixed: del sl[L - 1:]
+        elif o == "unshift":
+            L = len(sl)
+            if fixed:
+                pass
+            else:
+                sl.append(0)
+                for k2 in range(L - 1, -1, -1):
+                    v = sl[k2]; detach(k2 + 1); sl[k2 + 1] = v
+                detach(0); sl[0] = int(p[1]); cap = max(cap, len(sl))
+        elif o == "splice":
+            if not fixed:
+                L = len(sl); s0 = min(int(p[1]), L); d0 = min(int(p[2]), L - s0); k0 = int(p[3])
+                items = [900 + q for q in range(k0)]
+                def put(i, v):
+                    if i >= len(sl): sl.extend([0] * (i + 1 - len(sl)))
+                    detach(i); sl[i] = v
+                def dele(i):
+                    if i < len(sl): detach(i); sl[i] = 0
+                if k0 < d0:
+                    for q in range(L - d0 - s0): put(s0 + q + k0, sl[s0 + q + d0])
+                    for q in range(d0 - k0): dele(L - 1 - q)
+                elif d0 < k0:
+                    for q in range(L - d0 - s0): put(L - d0 - q + k0 - 1, sl[L - q - 1])
+                for q, v in enumerate(items): put(s0 + q, v)
+                n2 = L - d0 + k0
+                for i in range(n2, len(sl)): detach(i)
+                if n2 > len(sl): sl.extend([0] * (n2 - len(sl)))
+                else: del sl[n2:]
+                cap = max(cap, len(sl))
+        elif o in ("set", "bad", "push", "def"):
             i = len(sl) if o == "push" else int(p[1])
             if i >= len(sl) and fixed:
                 pass                                  # a Go array cannot grow: TypeError, nothing changes (fix 1c31366)
@@ -630,7 +683,7 @@ def main(ctx):
     ok, errs = ctx.lake_build(["model_c13"])
     # the axiom audit (and leanchecker) only read the built .olean files: run them while the streams run
     def audit_job():
-        ctx.audit("GojaModel.C13.Props", expect_min=50)
+        ctx.audit("GojaModel.C13.Props", expect_min=53)
         if not quick:
             ctx.leanchecker("GojaModel.C13.Props")
     f_audit = bg.submit(audit_job)
